@@ -16,6 +16,9 @@ VAL = "00112233445566778899aabbccddeeff"
 
 
 def spec(i, n=6):
+    if i >= 200:
+        # results that are partitions (an index object plus one object per member are written)
+        return {"id": i, "ret": {"k": "part", "v": [["a", {"k": "int", "v": i}], ["b%d" % i, {"k": "str", "v": "s%d" % i}]]}}
     if i >= 100:
         # different calls whose results are the same bytes (they share one content-addressed object in the store)
         return {"id": i, "ret": {"k": "bytes", "v": "ee" + VAL * n}}
@@ -40,6 +43,8 @@ SCENARIOS = {
     "cold-diff-nested-auto": ([1, 2], [], False, 0, "auto-nested"),
     # a cluster described by a configuration dictionary (not by backend objects), used for the first time by two threads at once
     "cold-same-configured-cluster": ([1, 1], [], False, 0, "cfg-memory"),
+    # different calls whose results are partitions, written at the same time
+    "cold-diff-partitions": ([201, 202], [], False, 0),
 }
 
 
@@ -96,6 +101,14 @@ class Run:
             codes.add(_FilesystemDataSource._write_non_versioned_link.__code__)
         elif line_mode == "deps":
             call_files = ("memento/memento.py",)      # every function call inside memento.py is a scheduling point
+        elif line_mode == "pindex":
+            # every source line of the partition strategy's store / encode
+            from twosigma.memento.storage_base import DefaultCodec
+            for nm in ("store", "encode"):
+                f = getattr(DefaultCodec.PicklePartitionStrategy, nm, None)
+                if f is not None:
+                    codes.add(f.__code__)
+            call_files = ()
         elif line_mode == "config":
             call_files = ("memento/configuration.py", "memento/storage.py", "memento/runner_local.py")
         elif line_mode == "memstore":
@@ -117,7 +130,7 @@ class Run:
         sched = self.sched
         self.cache = getattr(self.backend, "_memory_cache", None)
         for attr, label in (("_memory_cache", "cache"), ("_metadata_source", "meta"), ("_data_source", "data")):
-            if line_mode in ("mutex", "links", "memstore", "deps", "config"):
+            if line_mode in ("mutex", "links", "memstore", "deps", "config", "pindex"):
                 break
             if getattr(self.backend, attr, None) is not None:
                 setattr(self.backend, attr, PointProxy(getattr(self.backend, attr), label, sched))
@@ -148,12 +161,33 @@ class Run:
                 bad.append(("exception-escaped", "thread %d: %s: %s" % (w.idx, type(w.exc).__name__, str(w.exc)[:120])))
             elif not w.done:
                 bad.append(("thread-stuck", "thread %d did not finish" % w.idx))
+            elif hasattr(want, "list_keys"):
+                got_p = {k: w.result.get(k) for k in w.result.list_keys()} if hasattr(w.result, "list_keys") else w.result
+                if got_p != {k: want.get(k) for k in want.list_keys()}:
+                    bad.append(("wrong-value", "thread %d got the partition %r" % (w.idx, got_p)))
             elif w.result != want:
                 bad.append(("wrong-value", "thread %d got %r" % (w.idx, w.result)))
         counts = {}
         for e in self.events:
             if e[0] == "exec":
                 counts[e[2]] = counts.get(e[2], 0) + 1
+        if not bad and any(s["id"] >= 200 for s in self.specs) and self.kind == "filesystem":
+            # what the threads left in the store: read by a fresh backend, every call serves ITS partition without executing
+            from twosigma.memento.storage_filesystem import FilesystemStorageBackend
+            from . import fnlib
+            fnlib.set_env(self.m, self.root, {"fc": (FilesystemStorageBackend(path=os.path.join(self.root, "data")), None)})
+            n_before = len([e for e in self.events if e[0] == "exec"])
+            for s in self.specs:
+                want = fnmod.make_value(s["ret"])
+                try:
+                    r = fnmod.n0(s)
+                    got_p = {k: r.get(k) for k in r.list_keys()}
+                except Exception as e:
+                    got_p = "%s: %s" % (type(e).__name__, str(e)[:80])
+                if got_p != {k: want.get(k) for k in want.list_keys()}:
+                    bad.append(("stored-result-differs", "call %d, read back from the store by a fresh backend, gives %r" % (s["id"], got_p)))
+            if len([e for e in self.events if e[0] == "exec"]) != n_before:
+                bad.append(("single-flight", "a fresh backend had to execute bodies again after the threads finished"))
         for i, want in self.expected_execs.items():
             if counts.get(i, 0) != want:
                 bad.append(("single-flight", "body of call %d ran %d times, expected %d" % (i, counts.get(i, 0), want)))
@@ -251,22 +285,22 @@ def run(tier, seed):
                     ("warmcache-same", 1, 10, 0, False), ("warmstore-coldcache-same", 0, 0, 25, True), ("cold-diff-tightcache", 0, 0, 15, True),
                     ("cold-same", 2, 320, 0, "mutex"), ("cold-equal-results-3-nocache", 2, 250, 0, "links"),
                     ("cold-diff-3-memstore", 1, 400, 0, "memstore"), ("cold-diff-nested-auto", 1, 300, 0, "deps"),
-                    ("warmstore-coldcache-same", 1, 260, 0, True), ("cold-same-configured-cluster", 1, 200, 0, "config")]
+                    ("warmstore-coldcache-same", 1, 260, 0, True), ("cold-same-configured-cluster", 1, 200, 0, "config"), ("cold-diff-partitions", 1, 250, 0, "pindex")]
             if not gate["ok"]:      # search mode: an obligation is broken, look harder for a failing schedule
                 plan = [(n, b + 1, r * 4, rr * 4, lm) for (n, b, r, rr, lm) in plan]
         else:
-            plan = [(n, 3, 400, 0, False) for n in SCENARIOS] + [(n, 0, 0, 150, True) for n in SCENARIOS] + [(n, 2, 150, 0, "mutex") for n in ("cold-same", "cold-same-3", "mixed-3")] + [("cold-equal-results-3-nocache", 3, 1500, 0, "links"), ("cold-diff-3-memstore", 2, 3000, 0, "memstore"), ("cold-diff-nested-auto", 2, 3000, 0, "deps"), ("cold-same-configured-cluster", 2, 2500, 0, "config")]
+            plan = [(n, 3, 400, 0, False) for n in SCENARIOS] + [(n, 0, 0, 150, True) for n in SCENARIOS] + [(n, 2, 150, 0, "mutex") for n in ("cold-same", "cold-same-3", "mixed-3")] + [("cold-equal-results-3-nocache", 3, 1500, 0, "links"), ("cold-diff-3-memstore", 2, 3000, 0, "memstore"), ("cold-diff-nested-auto", 2, 3000, 0, "deps"), ("cold-same-configured-cluster", 2, 2500, 0, "config"), ("cold-diff-partitions", 2, 2500, 0, "pindex")]
         total, distinct = 0, set()
         cover = {}
         for name, bound, max_runs, random_runs, line_mode in plan:
             results, left = explore(lambda: Run(m, scratch, name, line_mode), bound, max_runs, rng, random_runs)
-            cover["%s/%s" % (name, ({"mutex": "lock-table-lines", "links": "link-writer-lines", "memstore": "memory-backend-lines", "deps": "calls-in-memento.py", "config": "calls-in-configuration.py"}.get(line_mode, "line")) if line_mode else "call")] = {"schedules": len(results), "unexplored_prefixes_left": left,
+            cover["%s/%s" % (name, ({"mutex": "lock-table-lines", "links": "link-writer-lines", "memstore": "memory-backend-lines", "deps": "calls-in-memento.py", "config": "calls-in-configuration.py", "pindex": "partition-strategy-lines"}.get(line_mode, "line")) if line_mode else "call")] = {"schedules": len(results), "unexplored_prefixes_left": left,
                                                                        "preemption_bound": bound}
             for trace, verdicts, choices in results:
                 total += 1
                 distinct.add((name, line_mode, tuple(trace)))
                 for sig, what in verdicts:
-                    rep.violation("C09:%s:%s" % (sig, name), "scenario %s, %s granularity: %s" % (name, ({"mutex": "lock-table lines", "links": "link-writer lines", "memstore": "in-memory backend lines", "deps": "function calls inside memento.py", "config": "function calls inside configuration.py / storage.py / runner_local.py"}.get(line_mode, "line")) if line_mode else "call", what),
+                    rep.violation("C09:%s:%s" % (sig, name), "scenario %s, %s granularity: %s" % (name, ({"mutex": "lock-table lines", "links": "link-writer lines", "memstore": "in-memory backend lines", "deps": "function calls inside memento.py", "config": "function calls inside configuration.py / storage.py / runner_local.py", "pindex": "lines of the partition strategy's store / encode"}.get(line_mode, "line")) if line_mode else "call", what),
                                   {"scenario": name, "granularity": "line" if line_mode else "call", "choices": choices,
                                    "schedule(thread, point)": trace[:200]})
                 if len(rep.samples) < 3 and len(trace) > 8:
